@@ -22,6 +22,7 @@ RULE = (
     "x, y, z) must equal the model after --clean; in full runs every oracle heavy atom is present and "
     "waters are present iff --drop-water is absent.  Non-trivial = >= 1 edit before the last "
     "coordinate record, or > 1 model, or an alt-loc / insertion code."
+    ' Every disordered atom has its own alt-loc label pair (A/B, B/C, B/A, C/D, 1/2); atom serial numbers run on, restart per block or are all equal.'
 )
 ASSUMPTIONS = [
     "wwPDB column layout; TER only at residue boundaries (inside a residue it is a malformed chain end)",
